@@ -17,6 +17,9 @@ ASSUMPTIONS = [
     "harmless, the one-element list [\"\"] counts as empty on both sides, '*' is the wildcard only as the sole element (spec/CertSpec.v)",
     "non-wildcard root lists are compared by the code with the ids of ALL root CAs of the layout (not with the root the chain ends in); "
     "the property text only speaks about the wildcard root constraint, so the oracle is silent there and model = implementation is what is checked",
+    "a URI name is the string (*url.URL).String() gives for the parsed SAN (scheme lower-cased, userinfo with its password, port, "
+    "query, fragment, percent-encoding and host case verbatim); the constraint value must be that very string — no URI normalisation, "
+    "no redaction (reading taken from urisToStrings; the harness renders the view with net/url itself, not through in_toto)",
     "certificates with an extended key usage that excludes ServerAuth are not generated (harness/lib/keys.go sets none)",
 ]
 EXPLANATION = ("Theorems: checkCertConstraint = declarative attribute condition (wildcard / NoDup values forming the same set as the "
@@ -70,7 +73,7 @@ def correspondence(ctx):
     corr = V.Corr()
     # (b)+(c) real certificates
     out = os.path.join(ctx.dir, 'cases.jsonl')
-    rc, o = ctx.run([binp, 'gen', out, '250' if quick else '3000'])
+    rc, o = ctx.run([binp, 'gen', out, '300' if quick else '3000'])
     if rc != 0:
         raise V.BuildError('c07 harness failed: ' + o[-2000:])
     V.evaluate_case_file(ctx, out, ['model.CertConstraint'], corr=corr, max_samples=2)
@@ -83,7 +86,13 @@ def correspondence(ctx):
                  "layout without roots; unparsable certificate: empty, not PEM, garbage DER, a public key), attribute lists absent / one / "
                  "several / duplicated / [\"\"], 0-3 constraints per step whose lists are wildcard / exact / permuted / repeated / empty / "
                  "[\"\"] / subset / superset / different / '*' inside a list, root list '*' / all layout roots / chain root only / other id / "
-                 "empty / superset; each scenario gives one Step.CheckCertConstraints case and one CertificateConstraint.Check case per "
+                 "empty / superset; URI names from a catalogue of 40 renderings (userinfo with / without / empty password, the literal password "
+                 "xxxxx, percent-encoded userinfo, ports, queries, fragments, percent-encoding in upper and lower hex incl. encoded / @ :, "
+                 "IPv6 hosts, opaque urn: and mailto:, trailing-slash and empty-path twins, host-case twins), a third of the scenarios "
+                 "URI-focused (sound chain, other attributes matching) with URI constraints exact / permuted / wildcard / near miss "
+                 "(password replaced by xxxxx, other password, password added or dropped, userinfo dropped, slash, port, host case, scheme "
+                 "case, hex case, decoded escape, query, fragment), ground truth = string equality with (*url.URL).String(); "
+                 "each scenario gives one Step.CheckCertConstraints case and one CertificateConstraint.Check case per "
                  "constraint. attribute level: all pairs of lists of length <= %d over {\"\",a,b,*} plus random lists of length <= 6 over 12 "
                  "strings. non-trivial = everything except the empty/empty attribute pair; distinct = distinct abstract scenario "
                  "(shapes, attribute values, intent; key ids abstracted) resp. distinct (constraints, values) pair" % (3 if quick else 4))
